@@ -317,11 +317,27 @@ func ReplayFill(base int, evs []Ev, rnd *rand.Rand) ([]Line, error) {
 				ln.Res = "loop"
 			}
 		case "loop":
-			ln.Started = r.fc.RefreshLoop(e.Grp)
+			// (RefreshLoop starts a goroutine and returns; a version that does part of the work itself must not hang the
+			// replay: the call is given its own goroutine and a deadline)
+			lch := make(chan bool, 1)
+			g := e.Grp
+			go func() { lch <- r.fc.RefreshLoop(g) }()
+			select {
+			case st := <-lch:
+				ln.Started = st
+			case <-time.After(300 * time.Millisecond):
+				ln.Note = "RefreshLoop did not return"
+			}
 		case "loopupdate":
 			ln.Started, _, _ = waitStart(e.Grp, nil)
 		case "stop":
-			r.fc.Stop()
+			sch := make(chan struct{})
+			go func() { r.fc.Stop(); close(sch) }()
+			select {
+			case <-sch:
+			case <-time.After(stepWait):
+				ln.Note = "Stop did not return"
+			}
 		case "loopexit":
 			deadline := time.Now().Add(stepWait)
 			for time.Now().Before(deadline) {
@@ -346,16 +362,44 @@ func ReplayFill(base int, evs []Ev, rnd *rand.Rand) ([]Line, error) {
 			r.d.failChk = e.Err
 			r.d.mu.Unlock()
 			ln.Fail = e.Err
-			ans, err := r.p.ValidateGroupMembership(email(e.U), q, "")
-			ln.Err = err != nil
-			if ans != nil {
-				ln.Ans = sorted(ans)
+			type askRes struct {
+				ans []string
+				err error
+			}
+			ach := make(chan askRes, 1)
+			u := e.U
+			go func() {
+				ans, err := r.p.ValidateGroupMembership(email(u), q, "")
+				ach <- askRes{ans, err}
+			}()
+			select {
+			case ar := <-ach:
+				ln.Err = ar.err != nil
+				if ar.ans != nil {
+					ln.Ans = sorted(ar.ans)
+				}
+			case <-time.After(stepWait):
+				ln.Note = "the question was not answered (the call did not return)"
 			}
 		case "get":
-			ms, ok := r.fc.Get(e.Grp)
-			ln.Has = ok
-			if ok {
-				ln.Mem = unEmail(ms)
+			type getRes struct {
+				ms groups.MemberSet
+				ok bool
+			}
+			gch := make(chan getRes, 1)
+			g := e.Grp
+			go func() {
+				ms, ok := r.fc.Get(g)
+				gch <- getRes{ms, ok}
+			}()
+			select {
+			case gr := <-gch:
+				ln.Has = gr.ok
+				if gr.ok {
+					ln.Mem = unEmail(gr.ms)
+				}
+			case <-time.After(stepWait):
+				ln.Note = "Get did not return"
 			}
 		}
 		r.snap(&ln)
@@ -415,11 +459,17 @@ func RunFillReplay(in, out string, seed int64, sample, workers, only int) (*Summ
 	res := make([][]Line, len(idx))
 	var wg sync.WaitGroup
 	var firstErr atomic.Value
+	var stuck int64
 	for wk := 0; wk < workers; wk++ {
 		wg.Add(1)
 		go func(wk int) {
 			defer wg.Done()
 			for j := wk; j < len(idx); j += workers {
+				// steps that do not complete each cost a deadline: once a few dozen behaviours have met one, the rest
+				// adds nothing but waiting (what was recorded is judged)
+				if atomic.LoadInt64(&stuck) > 32 {
+					return
+				}
 				var evs []Ev
 				if err := json.Unmarshal(behs[idx[j]], &evs); err != nil {
 					firstErr.Store(err)
@@ -432,6 +482,12 @@ func RunFillReplay(in, out string, seed int64, sample, workers, only int) (*Summ
 				}
 				ls[0].Conc = map[string]interface{}{"behaviour": idx[j], "events": behs[idx[j]]}
 				res[j] = ls
+				for _, l := range ls {
+					if l.Note != "" {
+						atomic.AddInt64(&stuck, 1)
+						break
+					}
+				}
 			}
 		}(wk)
 	}
